@@ -90,11 +90,15 @@ class _SimFileIO(io.FileIO):
 
     def __init__(self, sim, path, mode):
         self._sim = None  # gate off while FileIO.__init__ runs
+        self._discard = False
         super().__init__(path, mode)
         self._sim = sim
         self._simpath = path
+        sim.open_files.append(self)
 
     def write(self, b):
+        if self._discard:
+            return len(b)  # abandoned after the run: never reaches the disk
         sim = self._sim
         if sim is None:
             return super().write(b)
@@ -160,7 +164,7 @@ class SimOS:
         self.kill_event = None
         self._name_counter = 0
         self._installed = False
-        self.extra_gates = []  # other seams (simsql) share the call counter
+        self.open_files = []
         self.enabled = True
 
     # -- naming -------------------------------------------------------------
@@ -427,6 +431,35 @@ class SimOS:
     def __exit__(self, *exc):
         self.uninstall()
         return False
+
+    def abandon(self):
+        """end of a simulated process lifetime: whatever is still buffered in
+        files this run opened is dropped (never written), logging handlers
+        that point into the sandbox are closed, descriptors are released"""
+        import logging
+
+        for raw in self.open_files:
+            raw._discard = True
+        for ref in list(getattr(logging, "_handlerList", [])):
+            hdl = ref() if callable(ref) else ref
+            name = getattr(hdl, "baseFilename", None)
+            if hdl is not None and name and self.owns(name):
+                try:
+                    lg_names = list(logging.Logger.manager.loggerDict)
+                    for ln in lg_names:
+                        lg = logging.Logger.manager.loggerDict.get(ln)
+                        if isinstance(lg, logging.Logger) and hdl in lg.handlers:
+                            lg.removeHandler(hdl)
+                    hdl.close()
+                except Exception:
+                    pass
+        for raw in self.open_files:
+            try:
+                if not raw.closed:
+                    io.FileIO.close(raw)
+            except Exception:
+                pass
+        self.open_files = []
 
     # -- after a kill -----------------------------------------------------------
     def check_no_leak(self):
